@@ -23,15 +23,5 @@ From XF Require Import Faults.
 Import ListNotations.
 Local Open Scope string_scope.
 
-Definition exceptions : list exc := [
-  (Fmesher, "DoPeriodicBCTriangulation:writeTriangulationFiles#1");
-  (Solver Mag, "LoadProblemFile:LoadMeshElementsFromSolution:elm.lbl>=labels");
-  (Solver Mag, "LoadProblemFile:LoadMeshElementsFromSolution:elm.lbl<0");
-  (Solver Ele, "LoadMesh:elm.lbl>=labels");
-  (Solver Heat, "LoadMesh:elm.lbl>=labels");
-  (Solver Heat, "WriteResults:.anh(wt)");
-  (CliAnalyze Mag, "LoadProblemFile:LoadMeshElementsFromSolution:elm.lbl>=labels");
-  (CliAnalyze Mag, "LoadProblemFile:LoadMeshElementsFromSolution:elm.lbl<0");
-  (CliAnalyze Ele, "LoadMesh:elm.lbl>=labels");
-  (CliAnalyze Heat, "LoadMesh:elm.lbl>=labels")
-].
+(* all four defects (D2, F2, F3, F4) were repaired in /repo (commits 39a4f46, 7d12a23, 34f9995, 7f13438) *)
+Definition exceptions : list exc := [].
